@@ -1905,6 +1905,13 @@ impl VerifProbe {
         })
     }
 
+    /// Records that are kept although the id map no longer points at them:
+    /// (stream id, number of handles). `None` if a lock is held.
+    pub fn orphans(&self) -> Option<Vec<(u32, usize)>> {
+        let me = self.inner.try_lock().ok()?;
+        Some(me.store.verif_orphans())
+    }
+
     /// True if neither internal lock is held right now.
     pub fn locks_free(&self) -> bool {
         (self.send_len)().is_some() && self.inner.try_lock().is_ok()
